@@ -95,7 +95,7 @@ pub async fn run(cfg: RunCfg) -> RunResult {
         }
     }
     let base_v = ds.version().version;
-    let nparties = rng.range(2, 3) as usize;
+    let nparties = if cfg.thorough() { rng.range(2, 4) } else { rng.range(2, 3) } as usize;
     let recs: Arc<Mutex<Vec<OpRec>>> = Arc::new(Mutex::new(Vec::new()));
     let mut actors = Vec::new();
     let mut tasks = Vec::new();
@@ -107,7 +107,7 @@ pub async fn run(cfg: RunCfg) -> RunResult {
         let recs = recs.clone();
         let regions = regions.clone();
         let mut prng = rng.fork(actor as u64);
-        let nops = rng.range(1, 4);
+        let nops = if cfg.thorough() { rng.range(2, 7) } else { rng.range(1, 4) };
         actors.push(actor);
         tasks.push(tokio::spawn(async move {
             let r = guarded(async {
